@@ -198,6 +198,22 @@ def _integrate_over(expr: ast.AST, generators: Sequence[ast.comprehension]) -> a
     return core.parse(str(sym_expr))
 
 
+def _is_plain_arithmetic(node: ast.AST) -> bool:
+    """Names and numbers combined with + - * / ** only, which sympy reads the way python does."""
+    for child in ast.walk(node):
+        if isinstance(child, (ast.Name, ast.Constant, ast.operator, ast.unaryop, ast.expr_context)):
+            continue
+        if isinstance(child, ast.BinOp) and isinstance(
+            child.op, (ast.Add, ast.Sub, ast.Mult, ast.Div, ast.Pow)
+        ):
+            continue
+        if isinstance(child, ast.UnaryOp) and isinstance(child.op, (ast.USub, ast.UAdd)):
+            continue
+        return False
+
+    return True
+
+
 @processing.fix
 def simplify_math_iterators(source: str) -> str:
     root = core.parse(source)
@@ -230,6 +246,20 @@ def simplify_math_iterators(source: str) -> str:
         constants_in_arg = core.walk(arg, ast.Constant)
         if not all(type(constant.value) in {int, float} for constant in constants_in_arg):
             continue  # Only numbers can be summed
+
+        if core.match_template(arg, ast.Call(func=ast.Name(id="range"))):
+            operands = arg.args
+        elif core.match_template(arg, basic_collection_template):
+            operands = arg.elts
+        elif core.match_template(arg, basic_comprehension_template):
+            operands = [arg.elt]
+            for comprehension in arg.generators:
+                iterator = comprehension.iter
+                operands.extend(iterator.args if isinstance(iterator, ast.Call) else iterator.elts)
+        else:
+            continue
+        if not all(_is_plain_arithmetic(operand) for operand in operands):
+            continue  # Sympy would read (or reject) anything else differently from python
 
         if core.match_template(arg, ast.Call(func=ast.Name(id="range"))):
             if any((node is not arg for node in core.walk(arg, (ast.Attribute, ast.Call)))):
